@@ -810,8 +810,13 @@ impl Program {
         // result. Thus the true design size is not needed. Using this dummy avoids having
         // to plumb in the real design size into this function.
         let dummy_design_size = FixWord::ONE * 10;
-        let (_, errors) =
-            super::CompiledProgram::compile(self, dummy_design_size, kerns, entrypoints);
+        // This is the validation tftopl performs, including the phantom ligature bug.
+        let (_, errors) = super::compiler::compile_with_tftopl_phantom_ligatures(
+            self,
+            dummy_design_size,
+            kerns,
+            &entrypoints,
+        );
         for err in errors {
             warnings.push(ValidationWarning::InfiniteLoop(err));
         }
